@@ -40,9 +40,16 @@ pub fn c19g(ctx: &Ctx, begin: &mut dyn FnMut(J)) -> Outcome {
         n,
         (0..n).map(|i| format!(" lstring f{}; \"x\"\n", i)).collect::<String>()
     );
+    // a supplied schema in the usual .as layout with a helper type declared before the table that
+    // describes the rows: the declared field count is the table's
+    let helper_then_table = format!(
+        "simple pt\n\"A helper type\"\n(\n int x; \"x\"\n int y; \"y\"\n)\n\n{}",
+        custom
+    );
     for (label, autosql, want_text, want_count) in [
         ("generated", Some(schema.clone()), Some(schema.clone()), 3 + n),
         ("custom", Some(custom.clone()), Some(custom.clone()), 3 + n),
+        ("custom_helper_type_then_table", Some(helper_then_table.clone()), Some(helper_then_table.clone()), 3 + n),
         ("default", None, Some(BED3.to_string()), 3),
     ] {
         let input: BbInput = vec![(Chrom { name: "chr1".into(), size: 1000 }, vec![BedEntry { start: 1, end: 10, rest: rest.clone() }, BedEntry { start: 5, end: 20, rest: rest.clone() }])];
